@@ -79,6 +79,10 @@ class PhiEval:
             return int(self.env[k].e)
         if k is not None and k in self.env and self.env[k].e.is_Symbol:
             return str(self.env[k].e)       # a symbolic (but fixed) index, e.g. the cell of a cell loop
+        if ee.get("k") == "Bin" and ee["op"] in ("+", "-", "*"):
+            a, b = self.const(ee["a"]), self.const(ee["b"])
+            if isinstance(a, int) and isinstance(b, int):
+                return {"+": a + b, "-": a - b, "*": a * b}[ee["op"]]
         return None
 
     # ---- expressions --------------------------------------------------------------------------
